@@ -191,3 +191,16 @@ def startswith(s, p):
 def use(_name, **kw):
     """proof hint (a proved lemma instance): true at run time"""
     return True
+
+
+def sqrt(x):
+    return F(math.sqrt(float(x)))
+
+
+def median_of(v):
+    import numpy as np
+    return F(float(np.median([float(x) for x in v])))
+
+
+def count(s, ch):
+    return s.count(ch)
